@@ -600,6 +600,11 @@ class World:
 
     def _registered(self, n, cname):
         gen = CONTAINERS[cname]['gen']
+        if any(CONTAINERS[other]['gen'] > gen for other in n.live):
+            # a newer container of the instance is live on this node: this
+            # one is superseded (see _start), its reply establishes nothing
+            self.count('older_container_replied_ok_while_newer_live')
+            return
         for path, payload in container_paths(n.host, cname):
             if self.exempt.get(path) == n.name:
                 continue
